@@ -11,8 +11,17 @@ export OMP_NUM_THREADS=1 MKL_NUM_THREADS=1
 export PYTHONWARNINGS=ignore
 PID_="$1"; TIER="${2:-quick}"
 LIMIT=2400; [ "$TIER" = "thorough" ] && LIMIT=10800
+LIMIT="${VERIF_LIMIT:-$LIMIT}"
+# every process of this run carries VERIF_RUN_TAG in its environment (pool workers and loader workers start sessions of their own, so
+# neither the process group nor the session finds them); whatever still carries it when the check has returned is killed
+export VERIF_RUN_TAG="pdverif-$$-$RANDOM$RANDOM"
 setsid -w timeout -k 10 "$LIMIT" /venv/bin/python harness/check.py "$@" < /dev/null
 RC=$?
+for P in /proc/[0-9]*; do
+  Q="${P#/proc/}"
+  [ "$Q" = "$$" ] && continue
+  if { tr '\0' '\n' < "$P/environ"; } 2>/dev/null | grep -qx "VERIF_RUN_TAG=$VERIF_RUN_TAG"; then kill -9 "$Q" 2>/dev/null; fi
+done
 if [ $RC -eq 124 ] || [ $RC -eq 137 ]; then
   mkdir -p replays/"$PID_"
   echo "{\"property\": \"$PID_\", \"kind\": \"check timed out after ${LIMIT}s\"}" > replays/"$PID_"/timeout.json
